@@ -1,10 +1,9 @@
 (* C18 -- retarget_symbol_uses is complete and precise.
    Statements only.  Model: Sym/Retarget.v (hand model of _modify/retarget.py, run against the implementation); proofs:
    Sym/RetargetProofs.v.  Partial: that return edges follow retargeted calls is not a statement the model can meet -- the
-   implementation does not do it (known finding) -- and the completeness over all expressions of a module is the correspondence
-   and the oracle of harness/c18.py. *)
+   implementation does not do it (known finding). *)
 From Coq Require Import ZArith List Bool Arith.
-From GR Require Import Base.Result Sym.Delete Sym.Retarget Sym.RetargetProofs Sym.AbiRules Sym.AbiRulesProofs.
+From GR Require Import Base.Result Sym.Delete Sym.Retarget Sym.RetargetProofs Sym.AbiRules Sym.AbiRulesProofs Sym.RetargetComplete Sym.RetargetEdges.
 Import ListNotations.
 Open Scope Z_scope.
 
@@ -45,6 +44,45 @@ Theorem C18_only_branch_and_call_edges_into_the_old_referent_move :
     forall e, In e edges' ->
       In e edges \/ (exists y, (y = ET_BRANCH \/ y = ET_CALL) /\ In (blk, oldref, y) edges /\ e = (blk, newref, y)).
 Proof. exact retarget_out_edges_spec. Qed.
+
+(* exactly: afterwards the block's edge set is the old one without the Branch / Call edges into the old referent, plus those edges
+   redirected to the new referent; every other edge (other blocks, other targets, fallthrough and return edges) is kept *)
+Theorem C18_exactly_the_branch_and_call_edges_into_the_old_referent_move :
+  forall syms old new blk edges edges' oldref newref,
+    retarget_out_edges syms old new blk edges = Ok edges' ->
+    s_ref (info syms old) = Some oldref -> s_ref (info syms new) = Some newref -> s_cfgnode (info syms new) = true ->
+    forall x, In x edges' <->
+      (In x edges /\ ~ moved blk oldref x) \/ (exists y, bc y /\ In (blk, oldref, y) edges /\ x = (blk, newref, y)).
+Proof. exact retarget_out_edges_exact. Qed.
+
+(* ===== completeness over all symbolic expressions of the module ===== *)
+(* every expression keeps its place, addend and access; its symbols are the old ones under the substitution old -> new (for maps in
+   which no new symbol is itself retargeted) ... *)
+Theorem C18_every_mention_is_replaced : forall syms rules rmap, no_chain rmap -> forall s s',
+  retarget_symbol_uses syms rules rmap s = Ok s' ->
+  Forall2 (fun x x' => x_syms (xs_expr x') = map (subst rmap) (x_syms (xs_expr x)) /\ same_place x x') (r_sites s) (r_sites s').
+Proof. exact retarget_is_simultaneous_substitution. Qed.
+(* ... so that no expression mentions an old symbol afterwards, and no expression appears or disappears *)
+Theorem C18_no_old_symbol_is_left : forall syms rules rmap, no_chain rmap -> forall s s',
+  retarget_symbol_uses syms rules rmap s = Ok s' ->
+  forall x', In x' (r_sites s') -> forall sy, In sy (x_syms (xs_expr x')) -> lookup rmap sy = None.
+Proof. exact no_old_symbol_is_left. Qed.
+Theorem C18_places_are_kept : forall syms rules rmap, no_chain rmap -> forall s s',
+  retarget_symbol_uses syms rules rmap s = Ok s' -> map xs_key (r_sites s') = map xs_key (r_sites s).
+Proof. exact places_are_kept. Qed.
+(* chains A -> B, B -> C: with one symbol per expression (SymAddrConst) every mention is replaced by the direct target of its symbol *)
+Theorem C18_chains : forall syms rules rmap s s',
+  (forall x, In x (r_sites s) -> (length (x_syms (xs_expr x)) <= 1)%nat) ->
+  retarget_symbol_uses syms rules rmap s = Ok s' ->
+  Forall2 (fun x x' => x_syms (xs_expr x') = map (subst rmap) (x_syms (xs_expr x)) /\ same_place x x') (r_sites s) (r_sites s').
+Proof. exact retarget_with_chains. Qed.
+Example C18_chain_example :
+  exists s', retarget_symbol_uses [(0%nat, mk_sinfo (Some 5%nat) true true); (1%nat, mk_sinfo (Some 6%nat) true true); (2%nat, mk_sinfo (Some 7%nat) true true)] []
+      [(0%nat, 1%nat); (1%nat, 2%nat)]
+      (mk_rstate [mk_xsite (0%nat, 1) (mk_xexpr true [0%nat] 4 []) 1 (Some 2%nat) true ACC_CODE;
+                  mk_xsite (0%nat, 9) (mk_xexpr true [1%nat] 0 []) 1 (Some 2%nat) true ACC_CODE] [] [] []) = Ok s' /\
+    map (fun x => x_syms (xs_expr x)) (r_sites s') = [[1%nat]; [2%nat]].
+Proof. eexists. split; [vm_compute; reflexivity|reflexivity]. Qed.
 
 (* ===== the ABI's internal/external tables (Sym/AbiRules.v: abi_rules, compared with ABI._sym_expr_rules on every module) ===== *)
 (* no operand is ever matched by two rules of a table *)
